@@ -2,6 +2,7 @@
 //! vharness <prop> replay <file>                                   — re-run the cases of a file, print lines
 mod common;
 mod c02;
+mod c03;
 mod c04;
 mod c07;
 mod c09;
@@ -31,6 +32,7 @@ fn props() -> Vec<Prop> {
   vec![
     Prop { id: "C01", exec: jws::exec, classify: no_class, gen: jws::gen_c01 },
     Prop { id: "C02", exec: c02::exec, classify: no_class, gen: c02::gen },
+    Prop { id: "C03", exec: c03::exec, classify: no_class, gen: c03::gen },
     Prop { id: "C04", exec: c04::exec, classify: no_class, gen: c04::gen },
     Prop { id: "C08", exec: jws::exec, classify: no_class, gen: jws::gen_c08 },
     Prop { id: "C09", exec: c09::exec, classify: no_class, gen: c09::gen },
